@@ -9,5 +9,6 @@ CONSTANTS
   Fuse = TRUE
   ExtChoice = "small"
   ReqChoice = "small"
+  TrChoice = "direct"
 VIEW MCView
 INVARIANTS TypeOK I1
